@@ -1,0 +1,10 @@
+//go:build verif
+
+// Contracts for package slices, checked by /verif (govc). Comment-only file.
+package slices
+
+//@ func Copy
+//@   property C09
+//@   ensures [nil_iff] (result == nil) <==> (i == nil)
+//@   ensures [len] len(result) == len(i)
+//@   ensures [elems] forall j int :: 0 <= j && j < len(i) ==> result[j] == i[j]
